@@ -9,6 +9,8 @@ Structural clauses decided:
  R5 frame splitter guards: 9-byte header, length <= max_frame_size, completeness before the payload is sliced;
     stream id masks the reserved bit; length is the 24-bit big-endian prefix; primary stream = first HEADERS on a stream > 0
  C07.R1 the shared HPACK decoder is re-created before each message; C05.R8 cookie pairs divided at the first `=`
+ R3 (also) cookie / referer are split out under exactly these names; R2 (also) every fragment is decoded with the parser's own decoder;
+ R4 (also) each header yields exactly one header-order entry; R5 (also) narrowing conversions of the HTTP crate fit
 """
 from ..engine import cfg as C
 from ..engine import q as Q
